@@ -782,6 +782,27 @@ func (e *Env) evalCall(c *ast.CallExpr) (Val, error) {
 		}
 	}
 	switch name {
+	case "visited":
+		// visited(k): the running range-over-map loop of the verified function has already produced key k
+		if e.frame == nil || len(e.frame.iters) == 0 {
+			return Val{}, fmt.Errorf("visited(): no map iteration in progress")
+		}
+		k, err := e.eval(c.Args[0])
+		if err != nil {
+			return Val{}, err
+		}
+		var it *iterState
+		n := 0
+		for _, x := range e.frame.iters {
+			if !x.isStr && x.visited != nil {
+				it = x
+				n++
+			}
+		}
+		if n != 1 {
+			return Val{}, fmt.Errorf("visited(): need exactly one map iterator, have %d", n)
+		}
+		return Val{mk("Bool", "select", it.visited, k.T), boolT}, nil
 	case "cur":
 		// cur(x): the current value of the local variable / spilled parameter x (a bare parameter name denotes its entry value)
 		id, ok := c.Args[0].(*ast.Ident)
@@ -938,6 +959,24 @@ func (e *Env) evalCall(c *ast.CallExpr) (Val, error) {
 		}
 		dom, _ := e.v.mapHeaps(e.st, mt)
 		return Val{tAnd(tNot(tEq(m.T, tNilP)), mk("Bool", "select", dom.read(m.T), k.T)), boolT}, nil
+	case "onlykey":
+		// onlykey(m, k): the map m has exactly the one key k (quantifier-free: its domain array is the singleton {k})
+		m, err := e.eval(c.Args[0])
+		if err != nil {
+			return Val{}, err
+		}
+		k, err := e.eval(c.Args[1])
+		if err != nil {
+			return Val{}, err
+		}
+		mt, ok := e.v.substT(m.Ty).Underlying().(*types.Map)
+		if !ok {
+			return Val{}, fmt.Errorf("onlykey() on non-map")
+		}
+		dom, _ := e.v.mapHeaps(e.st, mt)
+		ks := e.v.sortOf(mt.Key())
+		empty := mk("(Array "+ks+" Bool)", "((as const (Array "+ks+" Bool)) false)")
+		return Val{tAnd(tNot(tEq(m.T, tNilP)), tEq(dom.read(m.T), mk(empty.Sort, "store", empty, k.T, tTrue))), boolT}, nil
 	case "forall", "exists":
 		// forall(i, lo, hi, body)  integer range   |  forall(k, Sort, body)
 		id, ok := c.Args[0].(*ast.Ident)
@@ -978,6 +1017,9 @@ func (e *Env) evalCall(c *ast.CallExpr) (Val, error) {
 				snap := e.st.snapshot()
 				base := e.child()
 				base.st = snap
+				if len(snap.frames) > 0 && e.frame != nil {
+					base.frame = snap.frames[0]
+				}
 				base.mode = 0
 				bodyX := c.Args[3]
 				varName := id.Name
@@ -1062,6 +1104,9 @@ func (e *Env) evalCall(c *ast.CallExpr) (Val, error) {
 				snap := e.st.snapshot()
 				base := e.child()
 				base.st = snap
+				if len(snap.frames) > 0 && e.frame != nil {
+					base.frame = snap.frames[0]
+				}
 				base.mode = 0
 				bodyX := c.Args[2]
 				varName := id.Name
@@ -1196,6 +1241,21 @@ func (e *Env) evalCall(c *ast.CallExpr) (Val, error) {
 			return Val{}, err
 		}
 		return Val{mk("String", "str.substr", vs[0].T, vs[1].T, vs[2].T), types.Typ[types.String]}, nil
+	case "replaceall":
+		vs, err := e.evalArgs(c.Args)
+		if err != nil {
+			return Val{}, err
+		}
+		// uninterpreted (the proofs need only congruence; solvers give up on symbolic str.replace_all)
+		e.v.D.declFun("zz_replaceall", []string{"String", "String", "String"}, "String")
+		return Val{mk("String", "zz_replaceall", vs[0].T, vs[1].T, vs[2].T), types.Typ[types.String]}, nil
+	case "sreplaceall":
+		// the SMT-LIB function itself, for ground (catalogue) facts
+		vs, err := e.evalArgs(c.Args)
+		if err != nil {
+			return Val{}, err
+		}
+		return Val{mk("String", "str.replace_all", vs[0].T, vs[1].T, vs[2].T), types.Typ[types.String]}, nil
 	case "isnan", "isinf", "isneg":
 		a, err := e.eval(c.Args[0])
 		if err != nil {
